@@ -14,13 +14,14 @@ LEVEL = "exploration"
 RULE = ("case = one execution, with a recording TracerProvider installed, of a corpus plan (interleaved run keys, "
         "consecutive runs, a run left open for the engine to close, a failing plan, a rejected duplicate open_run, built-in "
         "scans) uninterrupted and with abort / stop / halt / pause(+every decision) / suspension landing after EVERY loop "
-        "handle, plus every device operation failing; oracle: the i-th accepted open_run's 'run' span <-> the i-th RunStart; "
+        "handle, plus every device operation failing, plus a later document subscriber raising on the 1st/2nd RunStop (alone and with an abort); oracle: the i-th accepted open_run's 'run' span <-> the i-th RunStart; "
         "each such span is ended exactly once and its exit_status attribute equals that run's RunStop exit_status "
         "('abort' == 'aborted'); distinct = (plan, who closed which run, kind, outcome class); non-trivial = >=1 run was "
         "open at the interruption or closed by the engine")
 ASSUMPTIONS = ["opentelemetry SDK is not installed: a 60-line recording TracerProvider built on the API classes stands in "
                "for the in-memory exporter", "spans of open_run messages that were rejected (duplicate key) are not runs"]
-REQUIRED_COUNTERS = {"executions": 500, "run_spans_checked": 600, "engine_closed_runs": 100, "interleaved_key_runs": 200}
+REQUIRED_COUNTERS = {"executions": 500, "run_spans_checked": 600, "engine_closed_runs": 100, "interleaved_key_runs": 200,
+                     "stop_emission_faults": 40}
 MANIFEST = {
     "technique": "recording tracer provider + span/RunStop matching oracle over an interruption-coordinate sweep and "
                  "device-fault enumeration",
@@ -30,7 +31,7 @@ MANIFEST = {
     "note": "Corpus plans x all coordinates x kinds; recording provider replaces the OpenTelemetry SDK.",
     "design_ref": "3 (C42)",
 }
-PLANS_Q = ["nested", "keys_b", "two_runs", "neverclose", "rw_fail", "scan", "keys_dup"]
+PLANS_Q = ["nested", "keys_b", "two_runs", "neverclose", "rw_fail", "scan", "keys_dup", "park", "neverclose2"]
 PLANS_T = PLANS_Q + ["keys_a", "keys_c", "custom", "count", "clearcp", "fly"]
 SHARD_TIMEOUT = {"quick": 900, "thorough": 3600}
 _sink = None
@@ -49,6 +50,9 @@ def gen_cases(tier, seed):
     for p in (PLANS_Q if tier == "quick" else PLANS_T):
         cases.append({"plan": p, "plain": True, "seed": seed})
         cases.append({"plan": p, "faults": True, "seed": seed})
+    # a later document subscriber raising on the 1st / 2nd RunStop (e.g. while the ENGINE closes the runs a plan left open)
+    for p in ("neverclose", "neverclose2", "keys_b", "two_runs", "park", "nested"):
+        cases.append({"plan": p, "docfault": True, "seed": seed})
     return cases
 
 
@@ -72,7 +76,13 @@ def judge(ex, spans, ref_nm):
     end = next((i for i, e in enumerate(log) if (e[0] == "call" and e[1] == "probe") or e[0] == "harness"), len(log))
     starts, stops, closed_by = [], {}, {}
     cur = None
+    stop_emission_failed = set()   # runs whose RunStop reached the first subscriber while a later one raised on it
+    last_stop = None
     for i, e in enumerate(log[:end]):
+        if e[0] == "docfault" and last_stop is not None:
+            stop_emission_failed.add(last_stop)
+        if e[0] == "doc" and e[1] == "stop":
+            last_stop = e[2]["run_start"]
         if e[0] == "msg":
             cur = (i, e[1])
         elif e[0] == "doc" and e[1] == "start":
@@ -95,7 +105,8 @@ def judge(ex, spans, ref_nm):
     probe_spans = 0
     problems = []
     counters = {"executions": 1, "run_spans_checked": 0, "engine_closed_runs": sum(1 for v in closed_by.values() if v == "engine"),
-                "interleaved_key_runs": 0}
+                "interleaved_key_runs": 0,
+                "stop_emission_faults": int(any(e[0] == "docfault" for e in log[:end]))}
     if len(run_spans) < len(starts):
         problems.append(("run-without-span", f"{len(starts)} runs, {len(run_spans)} run spans"))
     n_open, max_open = 0, 0
@@ -117,7 +128,9 @@ def judge(ex, spans, ref_nm):
             problems.append((f"span-never-ended:closed-by={who}", f"run #{k} ({st.get('key')}) closed by {who}: span not ended"))
         elif sp.ended > 1:
             problems.append((f"span-ended-{sp.ended}-times", f"run #{k}"))
-        elif stop is not None:
+        elif stop is not None and not (st["uid"] in stop_emission_failed and who == "plan"):
+            # (when the emission of a PLAN-issued RunStop failed half-way the close_run message failed: documents and
+            #  engine disagree about that run's outcome and only 'ended exactly once' is judged for it)
             got = getattr(sp, "attrs_at_end", sp.attrs).get("exit_status")
             want = stop["exit_status"]
             if got != want and not (want == "abort" and got == "aborted"):
@@ -164,6 +177,12 @@ def run_case(case):
                 ops.append((e[1], e[2], counts[k]))
         for (dev, op, n) in ops:
             out += run_and_judge({"plan": plan, "faults": [[[dev, op, n], "raise"]], "decisions": []}, nm, None)
+        return out
+    if case.get("docfault"):
+        for nth in (1, 2):
+            out += run_and_judge({"plan": plan, "doc_fault": ["stop", nth], "decisions": []}, nm, None)
+            for c in coords[::5]:
+                out += run_and_judge({"plan": plan, "doc_fault": ["stop", nth], "inj": [[c[0], c[1], "abort"]], "decisions": []}, nm, None)
         return out
     s, n = case["slice"]
     kind = case["kind"]
